@@ -307,6 +307,10 @@ type c15Case struct {
 	// Endpoint2: the second call asks a DIFFERENT API of the same group ("" = the same endpoint): the client state one
 	// API left behind (cache entries, "this server does not support …" flags) must not leak into another API.
 	Endpoint2 string `json:"endpoint_second_call,omitempty"`
+	// PublicURI: the prometheus block sets `publicURI`, so every upstream of the group reports the SAME public address in
+	// its results; which upstream answered is then read off the payload marker.  Anything keyed by the public address
+	// instead of the upstream's own address (cache entries …) would be shared between the upstreams of the group.
+	PublicURI bool `json:"public_uri,omitempty"`
 	Binary   *c15BinObs `json:"binary_run,omitempty"`
 }
 
@@ -344,12 +348,27 @@ func c15Upstreams(c *c15Case, phase *atomic.Int32) []*fakeUpstream {
 	return ups
 }
 
-func c15BuildGroup(ep string, modes []c15Mode, required bool, ups []*fakeUpstream) (*promapi.FailoverGroup, []*fakeUpstream, []*countingTransport, []string, func()) {
+const c15PublicURI = "http://prom.example.com"
+
+// c15MarkerIdx: the upstream a payload marker ("u<k>") belongs to, -1 if it is not a single marker
+func c15MarkerIdx(marker string, n int) int {
+	for i := 0; i < n; i++ {
+		if marker == c15Marker(i) {
+			return i
+		}
+	}
+	return -1
+}
+
+func c15BuildGroup(ep string, modes []c15Mode, required bool, ups []*fakeUpstream, public ...bool) (*promapi.FailoverGroup, []*fakeUpstream, []*countingTransport, []string, func()) {
 	uris := make([]string, len(modes))
 	for i := range modes {
 		uris[i] = ups[i].URL
 	}
 	pc := config.PrometheusConfig{Name: "prom", URI: uris[0], Failover: uris[1:], Timeout: c15ClientTimeout, Required: required, Concurrency: 2, RateLimit: 1000}
+	if len(public) > 0 && public[0] {
+		pc.PublicURI = c15PublicURI
+	}
 	fg := config.C15NewFailoverGroup(pc)
 	cts := make([]*countingTransport, len(modes))
 	servers := fg.C15Servers()
@@ -407,7 +426,7 @@ func c15ErrKind(err error) string {
 // run A: one direct call.
 func c15RunDirect(c *c15Case, phase *atomic.Int32, shared []*fakeUpstream, obs *c15Obs) {
 	ep, modes, required, multi := c.Endpoint, c.Modes, c.Required, c.MultiSlice
-	fg, ups, cts, uris, cleanup := c15BuildGroup(ep, modes, required, shared)
+	fg, ups, cts, uris, cleanup := c15BuildGroup(ep, modes, required, shared, c.PublicURI)
 	defer cleanup()
 	ctx := context.Background()
 	// call performs the endpoint's FailoverGroup method once: (error, answering upstream, marker of the answer)
@@ -460,6 +479,9 @@ func c15RunDirect(c *c15Case, phase *atomic.Int32, shared []*fakeUpstream, obs *
 					marker += m.Help
 				}
 			}
+		}
+		if c.PublicURI && err == nil {
+			answerIdx = c15MarkerIdx(marker, len(modes)) // every upstream reports the same public address
 		}
 		return err, answerIdx, marker
 	}
@@ -1219,6 +1241,14 @@ func c15Enumerate(tier string, r *rand.Rand, nExtra int) []c15Case {
 	}
 	for i := range cases {
 		cases[i].ID = i
+		// every third case whose modes (both calls) are all listed ones runs with `publicURI` set on the block
+		listed := cases[i].Judged
+		for _, m := range cases[i].Modes2 {
+			listed = listed && m.Listed
+		}
+		if listed && i%3 == 0 {
+			cases[i].PublicURI = true
+		}
 	}
 	return cases
 }
@@ -1244,7 +1274,7 @@ func c15SearchCases(r *rand.Rand, n int) []c15Case {
 				timeouts++
 			}
 		}
-		c := c15Case{ID: i, Endpoint: c15Endpoints[r.Intn(5)], Required: r.Intn(2) == 0, Modes: ms, Judged: true}
+		c := c15Case{ID: i, Endpoint: c15Endpoints[r.Intn(5)], Required: r.Intn(2) == 0, Modes: ms, Judged: true, PublicURI: r.Intn(2) == 0}
 		if r.Intn(3) == 0 {
 			m2 := append([]c15Mode{}, ms...)
 			for j := range m2 {
@@ -1277,6 +1307,41 @@ func c15SearchCases(r *rand.Rand, n int) []c15Case {
 	return cases
 }
 
+// c15ProbeBadURL: an upstream whose URI does not parse.  Since fix 6f3f221 config.Load rejects such a configuration
+// (uri, every failover entry and discovery prometheusQuery.uri are url.Parse'd), so this state is unreachable from an
+// ACCEPTED configuration; promapi.doRequest now returns the *url.Error instead of dereferencing nil.  That error is no
+// APIError, so IsUnavailableError is true and the loop goes on — in the model it is the class of a transport error
+// (ENonApi) with no request sent.  Observed here on a group built without validation and recorded in the notes
+// (outside the nine listed modes: not judged, not compared).
+func c15ProbeBadURL(rep *runReport) {
+	defer func() {
+		if r := recover(); r != nil {
+			rep.Notes = append(rep.Notes, fmt.Sprintf("probe unparsable upstream URI: PANIC %v", r))
+		}
+	}()
+	good := newHTTPUpstream(c15Handler("query", 1, c15Listed[0]))
+	defer good.Close()
+	pc := config.PrometheusConfig{Name: "prom", URI: "http://exa mple.com/%zz", Failover: []string{good.URL}, Timeout: c15ClientTimeout, Concurrency: 2, RateLimit: 1000}
+	fg := config.C15NewFailoverGroup(pc)
+	reg := prometheus.NewRegistry()
+	fg.StartWorkers(reg)
+	defer fg.Close(reg)
+	qr, err := fg.Query(context.Background(), "up")
+	res := "error " + fmt.Sprint(err)
+	if err == nil && qr != nil {
+		res = "answered by " + qr.URI
+	}
+	pc2 := pc
+	pc2.Failover = nil
+	fg2 := config.C15NewFailoverGroup(pc2)
+	reg2 := prometheus.NewRegistry()
+	fg2.StartWorkers(reg2)
+	defer fg2.Close(reg2)
+	_, err2 := fg2.Query(context.Background(), "up")
+	rep.Notes = append(rep.Notes, fmt.Sprintf("probe unparsable upstream URI (unreachable from accepted configs since 6f3f221): [badurl, healthy] -> %s (healthy upstream got %d request); [badurl] alone -> IsUnavailableError=%v kind=%s",
+		res, good.hits.Load(), promapi.IsUnavailableError(err2), c15ErrKind(err2)))
+}
+
 func runC15(args []string) int {
 	slog.SetDefault(slog.New(slog.NewTextHandler(io.Discard, nil)))
 	tier := argStr(args, "--tier", "quick")
@@ -1307,6 +1372,9 @@ func runC15(args []string) int {
 	}
 
 	t0 := time.Now()
+	if tier != "search" {
+		c15ProbeBadURL(rep)
+	}
 	// run C: a sample of the judged cases through the real pint binary, concurrently with runs A/B
 	nBin := argInt(args, "--binary", 60)
 	binDone := make(chan struct{})
@@ -1472,6 +1540,10 @@ func runC15(args []string) int {
 				key += m.Name + ","
 			}
 			rep.hist("fault_sequence(second call with changed modes)")
+		}
+		if c.PublicURI {
+			key += "+publicURI"
+			rep.hist("publicURI set (answering upstream read off the marker)")
 		}
 		if c.SliceFault != nil {
 			key += fmt.Sprint("@", c.SliceFault)
